@@ -51,9 +51,18 @@ type Case struct {
 	// RangeRows steers the requested range (1: inside one row, 2: spans rows, 0: any).
 	RangeRows    int  `json:"rangeRows,omitempty"`
 	Blacklisting bool `json:"blacklisting,omitempty"`
+	// Overlap >= 1: candidates are scripted per CID and hashed once, like the Bitswap client does; > 1: that many calls of the bitswap getter for the same request run at the same time (the
+	// later ones enter while the first is waiting for its blocks).
+	Overlap int `json:"overlap,omitempty"`
+	// Bs1: candidates that arrive while only the FIRST of the overlapping calls is waiting (per block);
+	// Bs then arrive when all calls are waiting.
+	Bs1 [][]string `json:"bs1,omitempty"`
 	// AttemptTimeoutMs > 0: the shrex getter's minimal per-attempt timeout is lowered to this value
 	// (verif hook), so that a silent peer costs one attempt, not the whole call.
 	AttemptTimeoutMs int `json:"attemptTimeoutMs,omitempty"`
+	// FetchAllowed: for cases generated from BitswapFetch.tla, the return vectors ("nil"/"err" per call)
+	// the specification allows for these offers.
+	FetchAllowed [][]string `json:"fetchAllowed,omitempty"`
 	// Expect is the model's verdict for this behaviour (nil for seeded cases beyond the model's bounds).
 	Expect *Expect `json:"expect,omitempty"`
 }
@@ -450,7 +459,114 @@ func (d *driver) runCaseFull(c Case) (out Outcome, keys []string, ctxState strin
 		defer tm.Stop()
 	}
 
-	// ---- the call
+	// ---- the call, and the oracle on whatever came back
+	res := doCall(getter, ctx, &c, ref, reqs)
+	out.OK, out.Err, out.Items, out.Why, out.Panic, out.Hung, out.Millis = res.OK, res.Err, res.Items, res.Why, res.Panic, res.Hung, res.Millis
+	out.IsNF, out.IsBadRsp, out.IsVerify = res.IsNF, res.IsBadRsp, res.IsVerify
+	out.HeldAll, out.Fallback = heldAll.Load(), fallback.Load()
+	out.Served, _, _ = sc.snapshot()
+	sc.mu.Lock()
+	out.ServedAt = map[string][]int64{}
+	for k, v := range sc.at {
+		out.ServedAt[k] = append([]int64(nil), v...)
+	}
+	sc.mu.Unlock()
+	if fx != nil {
+		out.BsServed = fx.servedSnapshot()
+	}
+	switch ctx.Err() {
+	case context.DeadlineExceeded:
+		ctxState = "deadline"
+	case context.Canceled:
+		ctxState = "cancelled"
+	}
+	return
+}
+
+// runOverlap: Overlap calls of the bitswap getter for the same identifiers, overlapping in time: each
+// later call starts once the previous one has handed its want list to the exchange. The exchange then
+// offers every call the scripted candidates; if something stays undelivered the context ends when all
+// calls are waiting. Every call is judged on its own.
+func (d *driver) runOverlap(c Case) (outs []Outcome, ctxState string) {
+	t := d.t
+	w := c.W
+	if w == 0 {
+		w = 2
+	}
+	base := d.refs[w][0]
+	if c.Type == "range" {
+		base = d.refs[w][1]
+	}
+	height := d.height.Add(1)
+	ref := base.WithHeight(t, height)
+	reqs := d.concretise(&c, ref)
+	fx := newFakeExchange(d, &c, ref, reqs)
+	fx.overlap = true
+	fx.entered = make(chan int, 16)
+	fx.gate = make(chan struct{})
+	bg := bitswap.NewGetter(fx, d.blockStore(c.BlockStore), availability.RequestWindow)
+	bg.Start()
+	defer bg.Stop()
+	mctx := newManualCtx()
+	var quiet, finished atomic.Int32
+	fx.onQuiet = func() { quiet.Add(1) }
+	outs = make([]Outcome, c.Overlap)
+	var wg sync.WaitGroup
+	for k := 0; k < c.Overlap; k++ {
+		wg.Add(1)
+		go func(k int) {
+			defer wg.Done()
+			outs[k] = doCall(bg, mctx, &c, ref, reqs)
+			finished.Add(1)
+		}(k)
+		select {
+		case <-fx.entered:
+		case <-time.After(30 * time.Second):
+			bail("case %s: call %d never reached the exchange", c.ID, k)
+		}
+		if k == 0 && len(c.Bs1) > 0 {
+			first := map[string][]string{}
+			for i, o := range c.Bs1 {
+				first[fmt.Sprint(i)] = o
+			}
+			fx.distributeRound(first, 1)
+		}
+	}
+	close(fx.gate)
+	ctxState = "live"
+	// no wall clock: the context ends when every call has either returned or is waiting for blocks
+	// that will not come
+	for t0 := time.Now(); ; time.Sleep(5 * time.Millisecond) {
+		f, q := int(finished.Load()), int(quiet.Load())
+		if f >= c.Overlap {
+			break
+		}
+		if f+q >= c.Overlap || time.Since(t0) > 60*time.Second {
+			cause := c.Ctx
+			if cause == "" {
+				cause = "deadline"
+			}
+			mctx.end(cause)
+			ctxState = cause
+			break
+		}
+	}
+	wg.Wait()
+	for k := range outs {
+		outs[k].BsServed = fx.servedSnapshot()
+		outs[k].Reqs = nil
+		for _, q := range reqs {
+			outs[k].Reqs = append(outs[k].Reqs, q.String())
+		}
+	}
+	return
+}
+
+// doCall performs one Get* call on the getter under a watchdog and classifies every item of what came
+// back -- success or not -- with the oracle: good (verifies for the requested position and equals the
+// committed data), empty, or bad.
+func doCall(getter shwap.Getter, ctx context.Context, c *Case, ref *shx.Ref, reqs []shx.Req) (out Outcome) {
+	out.Items = make([]string, len(reqs))
 	var (
 		samples []shwap.Sample
 		row     shwap.Row
@@ -484,23 +600,6 @@ func (d *driver) runCaseFull(c Case) (out Outcome, keys []string, ctxState strin
 		}
 	})
 	out.Millis = time.Since(t0).Milliseconds()
-	out.HeldAll, out.Fallback = heldAll.Load(), fallback.Load()
-	out.Served, _, _ = sc.snapshot()
-	sc.mu.Lock()
-	out.ServedAt = map[string][]int64{}
-	for k, v := range sc.at {
-		out.ServedAt[k] = append([]int64(nil), v...)
-	}
-	sc.mu.Unlock()
-	if fx != nil {
-		out.BsServed = fx.servedSnapshot()
-	}
-	switch ctx.Err() {
-	case context.DeadlineExceeded:
-		ctxState = "deadline"
-	case context.Canceled:
-		ctxState = "cancelled"
-	}
 	if !returned {
 		out.Hung = true
 		out.Why = append(out.Why, "goroutines:\n"+dump[:min(len(dump), 6000)])
@@ -511,8 +610,6 @@ func (d *driver) runCaseFull(c Case) (out Outcome, keys []string, ctxState strin
 	}
 	out.OK = err == nil
 	classOfErr(&out, err)
-
-	// ---- the oracle on whatever came back, success or not
 	class := func(i int, empty bool, check func() error) {
 		if empty {
 			out.Items[i] = "empty"
